@@ -66,6 +66,13 @@ impl From<&'static str> for ContentError {
 pub struct Time { _o: u8 }
 /// the instant of a Time (same abstraction as unit validity: tat(t) = at(t.0))
 pub uninterp spec fn tat(t: Time) -> int;
+/// the value `Time::now()` returns in the call under consideration (chrono `Utc::now()`; the system clock is
+/// environment).  Every wrapper below reads the clock exactly once, so one name for "the reading" suffices.
+pub uninterp spec fn wall_clock() -> Time;
+impl Time {
+    #[verifier::external_body]
+    pub fn now() -> (r: Time) ensures r == wall_clock() { unimplemented!() }
+}
 
 /// opaque stand-ins for types of other rpki-rs modules whose content is irrelevant here
 #[verifier::external_body]
@@ -846,6 +853,83 @@ impl Cert {
     //@fn src/repository/cert.rs :: impl Cert :: verify_ta_ref_at
     //@spec
         ensures r.is_ok() <==> ta_ok(*self, now),
+    //@/spec
+    //@end
+
+    // ---- the wrappers that evaluate at the current time: the same contracts at `wall_clock()` --------------
+    //@fn src/repository/cert.rs :: impl Cert :: validate_ta
+    //@spec
+        ensures
+            r.is_ok() <==> inspect_ta_ok(self, strict) && ta_ok(self, wall_clock()),
+            r matches Ok(rc) ==> ta_result(rc, self, tal) && (cert_res_wf(self) ==> rc_wf(rc)),
+    //@/spec
+    //@end
+    //@fn src/repository/cert.rs :: impl Cert :: validate_ca
+    //@spec
+        requires cert_res_wf(self), rc_wf(*issuer),
+        ensures
+            r.is_ok() <==> inspect_ca_ok(self, strict) && issued_basic_ok(self, *issuer, wall_clock()) && resources_ok(self, *issuer),
+            r matches Ok(rc) ==> issued_result(rc, self, *issuer) && rc_wf(rc),
+    //@/spec
+    //@end
+    //@fn src/repository/cert.rs :: impl Cert :: validate_ee
+    //@spec
+        requires cert_res_wf(self), rc_wf(*issuer),
+        ensures
+            r.is_ok() <==> inspect_ee_ok(self, strict) && issued_basic_ok(self, *issuer, wall_clock()) && resources_ok(self, *issuer),
+            r matches Ok(rc) ==> issued_result(rc, self, *issuer) && rc_wf(rc),
+    //@/spec
+    //@end
+    //@fn src/repository/cert.rs :: impl Cert :: validate_detached_ee
+    //@spec
+        requires cert_res_wf(self), rc_wf(*issuer),
+        ensures
+            r.is_ok() <==> inspect_detached_ee_ok(self, strict) && issued_basic_ok(self, *issuer, wall_clock()) && resources_ok(self, *issuer),
+            r matches Ok(rc) ==> issued_result(rc, self, *issuer) && rc_wf(rc),
+    //@/spec
+    //@end
+    //@fn src/repository/cert.rs :: impl Cert :: validate_router
+    //@spec
+        requires cert_res_wf(*self), rc_wf(*issuer),
+        ensures
+            r.is_ok() <==> inspect_router_ok(*self, strict) && issued_basic_ok(*self, *issuer, wall_clock())
+                && as_issued(as_set(issuer.as_resources), self.tbs.as_resources, self.tbs.overclaim).is_some(),
+    //@/spec
+    //@end
+    //@fn src/repository/cert.rs :: impl Cert :: verify_ta
+    //@spec
+        ensures
+            r.is_ok() <==> ta_ok(self, wall_clock()),
+            r matches Ok(rc) ==> ta_result(rc, self, tal) && (cert_res_wf(self) ==> rc_wf(rc)),
+    //@/spec
+    //@end
+    //@fn src/repository/cert.rs :: impl Cert :: verify_ta_ref
+    //@spec
+        ensures r.is_ok() <==> ta_ok(*self, wall_clock()),
+    //@/spec
+    //@end
+    //@fn src/repository/cert.rs :: impl Cert :: verify_ca
+    //@spec
+        requires cert_res_wf(self), rc_wf(*issuer),
+        ensures
+            r.is_ok() <==> issued_basic_ok(self, *issuer, wall_clock()) && resources_ok(self, *issuer),
+            r matches Ok(rc) ==> issued_result(rc, self, *issuer) && rc_wf(rc),
+    //@/spec
+    //@end
+    //@fn src/repository/cert.rs :: impl Cert :: verify_ee
+    //@spec
+        requires cert_res_wf(self), rc_wf(*issuer),
+        ensures
+            r.is_ok() <==> issued_basic_ok(self, *issuer, wall_clock()) && resources_ok(self, *issuer),
+            r matches Ok(rc) ==> issued_result(rc, self, *issuer) && rc_wf(rc),
+    //@/spec
+    //@end
+    //@fn src/repository/cert.rs :: impl Cert :: verify_router
+    //@spec
+        requires cert_res_wf(*self), rc_wf(*issuer),
+        ensures
+            r.is_ok() <==> issued_basic_ok(*self, *issuer, wall_clock())
+                && as_issued(as_set(issuer.as_resources), self.tbs.as_resources, self.tbs.overclaim).is_some(),
     //@/spec
     //@end
 }
